@@ -40,11 +40,17 @@ let () =
       let oka l = "ok " ^ sb l in
       let read vw = List.map vw.vget (lex_enum shape) in
       let sentinel = { alayout = RowMajor; ashape = shape; abuf = List.map (fun _ -> z_of_int (-99)) elems } in
-      let line row col two twoc sup =
-        "lazy " ^ oka elems ^ " | row " ^ sb row ^ " | col " ^ sb col ^ " | two " ^ oka two ^ " | twoc " ^ oka twoc ^ " | sup " ^ oka sup in
+      (* wrong-shaped supplied output of the same element count: flattened, or with an extra unit axis *)
+      let n = List.length elems in
+      let shape2 = if List.length shape >= 2 then [z_of_int n] else [z_of_int n; z_of_int 1] in
+      let sentinel2 = { alayout = RowMajor; ashape = shape2; abuf = List.map (fun _ -> z_of_int (-99)) elems } in
+      let ok2 l = "ok " ^ show_list shape2 ^ " ;" ^ (if l = [] then "" else " " ^ show_list l) in
+      let line row col two twoc sup sup2 =
+        "lazy " ^ oka elems ^ " | row " ^ sb row ^ " | col " ^ sb col ^ " | two " ^ oka two ^ " | twoc " ^ oka twoc ^ " | sup " ^ oka sup
+        ^ " | sup2 " ^ ok2 sup2 in
       { model = line (eval_into v (fresh RowMajor Z0 shape)).abuf (eval_into v (fresh ColMajor Z0 shape)).abuf
                      (read (materialise RowMajor Z0 v)) (read (materialise ColMajor Z0 v))
-                     (read (view_of Z0 (eval_into v sentinel)));
-        spec = line (spec_buffer RowMajor v) (spec_buffer ColMajor v) elems elems elems;
+                     (read (view_of Z0 (eval_into v sentinel))) (eval_into v sentinel2).abuf;
+        spec = line (spec_buffer RowMajor v) (spec_buffer ColMajor v) elems elems elems sentinel2.abuf;
         dom = posb shape }
     end)
